@@ -60,6 +60,9 @@ CONSTRAINTS = [
     # signed / zero-padded number format without a plain "0": only the exception contract is checked for these (Z3 itself
     # evaluates str.to.int("+0") to -1, the reference semantics cannot judge them)
     'exists <pnum> p in start: (= (str.to.int p) 0)',
+    # Boolean structure INSIDE one SMT atom (the solver normalises negations within atoms separately from ISLa-level ones)
+    ('forall <var> v in start: (not (or (= v "a") (= v "b")))', "<assgn>"),
+    ('forall <var> v in start: (not (or (= v "a") (= v "b") (= v "c")))', "<assgn>"),      # unsatisfiable
 ]
 C02_ONLY = {22}
 # an entry may be (constraint, start_symbol): the solver is then asked for trees rooted at that nonterminal
